@@ -9,6 +9,7 @@ From Tele Require Import Gen.Consts Model.CounterConc Proofs.CounterWord Proofs.
 Import ListNotations.
 
 Definition stale (s : shared) (t : thread) : nat := if Z.eqb (s_word s) (t_st t) then 0 else 2.
+Definition stale2 (s : shared) (t : thread) : nat := if Z.eqb (s_word s) (t_old t) then 0 else 2.
 
 (* work left for a lock holder: set havePtr (and look the pointer up), flush extra *)
 Definition phi (s : shared) : nat :=
@@ -22,10 +23,22 @@ Definition cell_stale (s : shared) (t : thread) : nat :=
 
 Definition nmax (np : nops) : nat := Nat.max (n_after_store_rotate np) (n_after_store_extend np).
 
+(* a lookup that extends the file is followed by a second lookup: the work a
+   full file still holds in store for whoever looks the counter up *)
+Definition fullw (s : shared) : nat := if s_full s then 100 else 0.
+
 Definition rank (np : nops) (s : shared) (t : thread) : nat :=
   match t_pc t with
   | Done | Crash => 0
+  | _ => fullw s
+  end +
+  match t_pc t with
+  | Done | Crash => 0
   | CClose => 1
+  | GClose => 81
+  | GRfLoad => 82
+  | GIvCas => 83 + stale2 s t
+  | GIvLoad => 84
   | LCas => phi s + 10 + stale s t
   | LLoad => phi s + 11
   | LCellCas => phi s + 14 + cell_stale s t
@@ -51,7 +64,7 @@ Definition rank (np : nops) (s : shared) (t : thread) : nat :=
   | CIdle => 115 + nmax np
   end.
 
-Definition rank_bound (np : nops) : nat := 116 + nmax np.
+Definition rank_bound (np : nops) : nat := 216 + nmax np.
 
 Definition live (t : thread) : bool := match t_pc t with Done | Crash => false | _ => true end.
 
@@ -91,6 +104,25 @@ Proof. unfold stale. destruct (Z.eqb _ _); lia. Qed.
 Lemma cell_stale_le s t : (cell_stale s t <= 2)%nat.
 Proof. unfold cell_stale. destruct (s_ptr s); [destruct (Z.eqb _ _)|]; lia. Qed.
 
+(* no step refills the file *)
+Lemma full_mono np s t s' t' : step_thread np s t = (s', t') -> s_full s' = true -> s_full s = true.
+Proof.
+  unfold step_thread. intros H.
+  destruct (t_pc t);
+    repeat match goal with
+           | H : (if ?c then _ else _) = _ |- _ => destruct c eqn:?
+           | H : match ?c with Some _ => _ | None => _ end = _ |- _ => destruct c eqn:?
+           | H : match ?c with NewFile => _ | SameFile => _ | NoFile => _ end = _ |- _ => destruct c
+           end;
+    injection H as <- _; cbn; auto; try discriminate; try congruence.
+Qed.
+
+Lemma fullw_le np s t s' t' : step_thread np s t = (s', t') -> (fullw s' <= fullw s)%nat.
+Proof.
+  intros H. pose proof (full_mono np s t s' t' H) as M. unfold fullw.
+  destruct (s_full s'); [rewrite (M eq_refl); lia | destruct (s_full s); lia].
+Qed.
+
 (* the rank of the stepping thread strictly decreases *)
 Lemma rank_decreases np s t s' t' :
   step_thread np s t = (s', t') -> live t = true ->
@@ -98,7 +130,8 @@ Lemma rank_decreases np s t s' t' :
   (0 < needs_ptr t -> s_ptr s <> None) ->
   (rank np s' t' < rank np s t)%nat.
 Proof.
-  intros H Hl Hw Hnp. unfold step_thread in H. unfold live in Hl.
+  intros H Hl Hw Hnp. pose proof (fullw_le np s t s' t' H) as Hf.
+  unfold step_thread in H. unfold live in Hl.
   pose proof (phi_le s) as Pl.
   destruct (t_pc t) eqn:Hpc; try discriminate.
   - (* AIdle *) injection H as <- <-. rk Hpc. lia.
@@ -168,9 +201,30 @@ Proof.
     + change (phi (set_ptr s None)) with (phi s).
       match goal with |- context [stale ?a ?b] => pose proof (stale_le a b) end. lia.
   - (* LLook2 *)
-    injection H as <- <-. unfold rank. rewrite Hpc. cbn [t_pc with_pc].
-    change (phi (set_ptr s (s_cur s))) with (phi s).
-    match goal with |- context [stale ?a ?b] => pose proof (stale_le a b) end. lia.
+    assert (Plain : (s', t') = (set_ptr s (s_cur s), with_pc t LCas) -> (rank np s' t' < rank np s t)%nat).
+    { intros X. injection X as -> ->. unfold rank. rewrite Hpc. cbn [t_pc with_pc].
+      change (phi (set_ptr s (s_cur s))) with (phi s). change (fullw (set_ptr s (s_cur s))) with (fullw s).
+      match goal with |- context [stale ?a ?b] => pose proof (stale_le a b) end. lia. }
+    destruct (s_cur s) as [g0|] eqn:Ec; [|apply Plain; rewrite <- H; reflexivity].
+    destruct (t_prev t) eqn:Epv; [apply Plain; rewrite <- H; reflexivity|].
+    destruct (s_full s) eqn:Efu; [|apply Plain; rewrite <- H; reflexivity].
+    injection H as <- <-. unfold rank. rewrite Hpc. cbn [t_pc]. unfold fullw. cbn [s_full]. rewrite Efu. lia.
+  - (* GIvLoad *)
+    destruct (w_have (s_word s)); injection H as <- <-; unfold rank; rewrite Hpc; cbn [t_pc with_st2 with_pc]; [|lia].
+    unfold stale2. cbn [t_old with_st2]. rewrite Z.eqb_refl. lia.
+  - (* GIvCas *)
+    unfold rank at 2. rewrite Hpc. unfold stale2 at 1.
+    destruct (Z.eqb_spec (s_word s) (t_old t)) as [Ew|Ne]; injection H as <- <-; unfold rank; cbn [t_pc with_pc]; [|lia].
+    change (fullw (set_word s (w_clear_have (t_old t)))) with (fullw s). lia.
+  - (* GRfLoad *)
+    destruct (w_have (s_word s) || (0 <? w_readers (s_word s)) || (w_extra (s_word s) =? 0))%Z; injection H as <- <-;
+      unfold rank; rewrite Hpc; cbn [t_pc with_pc]; lia.
+  - (* GClose *)
+    destruct (t_prev t); injection H as <- <-; unfold rank; rewrite Hpc; cbn [t_pc with_pc].
+    + match goal with |- context [stale ?a ?b] => pose proof (stale_le a b) end.
+      match goal with |- context [phi ?a] => pose proof (phi_le a) end. lia.
+    + match goal with |- context [stale ?a ?b] => pose proof (stale_le a b) end.
+      match goal with |- context [phi ?a] => pose proof (phi_le a) end. lia.
   - (* LCellLoad *)
     destruct (s_ptr s) as [g|] eqn:Ep; [|exfalso; apply Hnp; [unfold needs_ptr; rewrite Hpc; lia | reflexivity]].
     injection H as <- <-. unfold rank. rewrite Hpc. cbn [t_pc with_old]. unfold cell_stale. cbn [touch s_ptr t_old with_old].
@@ -186,11 +240,11 @@ Proof.
   - (* CIdle *) injection H as <- <-. destruct (t_tgt t); unfold rank; rewrite Hpc; cbn [t_pc with_pc]; lia.
   - (* CPre *) injection H as <- <-. unfold rank. rewrite Hpc. cbn [t_pc with_pc]. lia.
   - (* CStore *)
-    assert (G : forall k t0, (k <= nmax np)%nat -> t_pc t0 = Done -> forall s0, (rank np s0 (goto_nops t0 k IvLoad) < 113 + nmax np)%nat).
+    assert (G : forall k t0, (k <= nmax np)%nat -> t_pc t0 = Done -> forall s0, (rank np s0 (goto_nops t0 k IvLoad) < fullw s0 + 113 + nmax np)%nat).
     { intros k t0 Hk _ s0. destruct k; unfold goto_nops, rank; cbn [t_pc with_pc]; lia. }
     unfold rank at 2. rewrite Hpc.
     destruct (t_tgt t); [| destruct (s_cur s) |]; injection H as <- <-;
-      try (apply G; [unfold nmax; lia | reflexivity]).
+      try (eapply Nat.lt_le_trans; [apply G; [unfold nmax; lia | reflexivity] | lia]).
     unfold rank. cbn [t_pc with_pc]. lia.
   - (* CNop *) injection H as <- <-. destruct k; unfold rank; rewrite Hpc; cbn [t_pc with_pc]; lia.
   - (* IvLoad *)
@@ -249,5 +303,7 @@ Qed.
 Lemma rank_bounded np s t : (forall k, t_pc t <> CNop k) -> (rank np s t <= rank_bound np)%nat.
 Proof.
   intros H. unfold rank, rank_bound. pose proof (phi_le s). pose proof (stale_le s t). pose proof (cell_stale_le s t).
+  assert (stale2 s t <= 2)%nat by (unfold stale2; destruct (Z.eqb _ _); lia).
+  assert (fullw s <= 100)%nat by (unfold fullw; destruct (s_full s); lia).
   destruct (t_pc t) eqn:E; try lia. exfalso. eapply H; eauto.
 Qed.
